@@ -278,30 +278,23 @@ Section LB.
     destruct i as [|i]; [reflexivity| apply IH; lia].
   Qed.
 
-  (* the start vector of the fasterConvergence mode is a bound only if the 0.0001 guard is inactive
-     or the action's minimal reward is non-negative *)
-  Definition blind_start_ok (a : nat) : Prop := 1 # 10000 <= 1 - g \/ 0 <= minl (Rcol m a).
+  Lemma denom_eq : denom m == 1 - g.
+  Proof. unfold denom. fold g. pose proof Hg as [_ G1]. destruct (Qlt_le_dec g 1); [reflexivity| lra]. Qed.
 
-  Lemma blind_start_sound : forall c a, tail_hi c -> (a < nA (pm m))%nat -> blind_start_ok a ->
+  Lemma blind_start_sound : forall c a, tail_hi c -> (a < nA (pm m))%nat ->
     lbS c (blind_start m true a).
   Proof.
-    intros c a Hc Ha Hok. pose proof Hg as [G0 G1]. pose proof HS as HSp. fold S in HSp.
+    intros c a Hc Ha. pose proof Hg as [G0 G1]. pose proof HS as HSp. fold S in HSp.
     set (r := minl (Rcol m a)). set (d := denom m). set (k := Qred (r / d)).
-    assert (Hd : 0 < d /\ 1 - g <= d /\ (1 # 10000 <= 1 - g -> d == 1 - g)).
-    { unfold d, denom. fold g. split; [| split].
-      - eapply Qlt_le_trans; [| apply Q.le_max_l]. reflexivity.
-      - apply Q.le_max_r.
-      - intros H. apply Q.max_r. exact H. }
-    destruct Hd as [Hd0 [Hd1 Hd2]].
+    assert (Hd2 : d == 1 - g) by (unfold d; apply denom_eq).
+    assert (Hd0 : 0 < d) by lra. assert (Hd1 : 1 - g <= d) by lra.
     assert (Hr : forall s, (s < S)%nat -> r <= Rw m s a).
     { intros s Hs. apply minl_le. unfold Rcol. apply (in_map (fun s => Rw m s a)). apply in_seq. fold S. lia. }
     assert (Hk : k == r / d) by (unfold k; apply Qred_correct).
     assert (Hkd : k * d == r) by (rewrite Hk; field; lra).
     (* k (1 - g) <= r *)
     assert (Hk1 : k * (1 - g) <= r).
-    { destruct Hok as [H|H].
-      - rewrite <- (Hd2 H). lra.
-      - fold r in H. assert (0 <= k) by (rewrite Hk; apply Qle_shift_div_l; lra). nra. }
+    { rewrite <- Hd2. lra. }
     (* k <= c *)
     assert (Hrc : r <= c * (1 - g)).
     { assert (Hne : Rcol m a <> []) by (unfold Rcol; fold S; destruct S; [lia| cbn; discriminate]).
@@ -309,10 +302,7 @@ Section LB.
       destruct Hx as [s [<- Hs]]. apply in_seq in Hs. fold r in E. rewrite E.
       pose proof (Hc s a ltac:(unfold S; lia) Ha). lra. }
     assert (Hkc : k <= c).
-    { destruct Hok as [H|H].
-      - assert (k * (1 - g) == r) by (rewrite <- (Hd2 H); exact Hkd). nra.
-      - fold r in H. assert (0 <= k) by (rewrite Hk; apply Qle_shift_div_l; lra).
-        assert (0 <= c) by nra. nra. }
+    { assert (k * (1 - g) == r) by (rewrite <- Hd2; exact Hkd). nra. }
     apply (selfcert_sound c a); [exact Hc| exact Ha| |].
     - intros s Hs. unfold blind_start. fold S. rewrite nthq_repeat by exact Hs. exact Hkc.
     - intros s Hs. rewrite nthq_backup_const by assumption. unfold blind_start. fold S. fold r d k.
@@ -336,10 +326,10 @@ Section LB.
   Qed.
 
   (* every iterate of the fasterConvergence mode is a sound lower-bound vector *)
-  Theorem blind_iter_sound : forall c a k, tail_hi c -> (a < nA (pm m))%nat -> blind_start_ok a ->
+  Theorem blind_iter_sound : forall c a k, tail_hi c -> (a < nA (pm m))%nat ->
     lbS c (blind_iter m true a k).
   Proof.
-    intros c a k Hc Ha Hok. induction k as [|k IH].
+    intros c a k Hc Ha. induction k as [|k IH].
     - apply blind_start_sound; assumption.
     - change (blind_iter m true a (Datatypes.S k)) with (blind_step m a (blind_iter m true a k)).
       apply blind_step_sound; [exact Hc| apply blind_iter_length; right; exact I| exact Ha| exact IH].
